@@ -141,6 +141,25 @@ Theorem C06_add_keeps_names_and_addresses : forall parse addr_string encode_stri
 Proof. exact add_keeps_names_and_addresses. Qed.
 Print Assumptions C06_add_keeps_names_and_addresses.
 
+(* Msg.Reset.  Source-derived: Reset assigns a freshly made map to m.addrHeader (top-level statement of its body). *)
+Theorem C06_source_reset_reallocates : reset_reallocates_addr_header = true.
+Proof. exact gen_reset_reallocates. Qed.
+Print Assumptions C06_source_reset_reallocates.
+
+(* For ALL histories: whatever was called before a Reset — on every header incl. EnvelopeFrom —, the state after the
+   history is the state after the calls that follow the last Reset applied to the empty Msg; directly after a Reset all
+   six lists are empty, GetSender has no address, GetRecipients none, nothing is rendered. *)
+Theorem C06_reset_forgets : forall parse addr_string encode_string pre post m0,
+  run parse addr_string encode_string (pre ++ CReset :: post) m0 = run parse addr_string encode_string post [].
+Proof. exact reset_forgets. Qed.
+Print Assumptions C06_reset_forgets.
+
+Theorem C06_reset_clears : forall parse addr_string encode_string pre m0,
+  let m := run parse addr_string encode_string (pre ++ [CReset]) m0 in
+  (forall k, lookup m k = []) /\ get_sender m = None /\ get_recipients m = [] /\ render_addr addr_string m = [].
+Proof. exact reset_clears. Qed.
+Print Assumptions C06_reset_clears.
+
 (* Bcc non-interference: the rendered address fields do not depend on the Bcc list at all ... *)
 Theorem C06_bcc_noninterference : forall addr_string (m : amap) (l : list addr),
   render_addr addr_string (set m hdr_bcc l) = render_addr addr_string m.
